@@ -180,7 +180,7 @@ fn gen_msg(t: &mut Tape) -> MMsg {
         0 => MMsg::Hs(gen_hs(t, 300)),
         1 => MMsg::Ccs,
         2 => MMsg::Alert(if t.bool() { t.pick(&[1u8, 2]) } else { t.u8() }, t.u8()),
-        3 => MMsg::AppData(t.small_blob(100)),
+        3 => MMsg::AppData(if t.chance(40) { vec![0x17; t.pick(&[16384usize, 16640, 16641, 20000, 70000])] } else { t.small_blob(100) }),
         _ => {
             let p = t.small_blob(50);
             MMsg::Heartbeat { ty: t.u8(), payload_len: t.u16b(), payload: p }
